@@ -814,5 +814,5 @@ func replay(c *hx.Ctx, key string) []hx.Violation {
 }
 
 func main() {
-	hx.Main(&hx.Spec{Engine: "entryx", JobTimeout: 90 * time.Second, Levels: map[string]string{"C15": "exploration"}, Plan: plan, Replay: replay})
+	hx.Main(&hx.Spec{Engine: "entryx", JobTimeout: 10 * time.Minute, Levels: map[string]string{"C15": "exploration"}, Plan: plan, Replay: replay})
 }
